@@ -275,6 +275,15 @@ func (h *FBDNSDB) ServeDNSWithRCODE(ctx context.Context, w dns.ResponseWriter, r
 		h.stats.IncrementCounter("DNS_response.refused")
 		m := new(dns.Msg)
 		m.SetRcode(r, dns.RcodeRefused)
+		if r.IsEdns0() != nil && ecs != nil {
+			// echo the client subnet option like every other answer does: left
+			// to SizeAndDo, the reply gets the request's OPT without it
+			o = new(dns.OPT)
+			o.Hdr.Name = "."
+			o.Hdr.Rrtype = dns.TypeOPT
+			o.Option = append(o.Option, ecs)
+			m.Extra = append([]dns.RR{o}, m.Extra...)
+		}
 		// does not matter if this write fails
 		return h.writeAndLog(state, m, ecs)
 	}
